@@ -1,5 +1,6 @@
 import Cirbo.Proofs.Bench
 import Cirbo.Proofs.BenchDoc
+import Cirbo.Proofs.BenchLayoutC
 /-!
 # C11 — Bench text round-trips and the parser is faithful
 
@@ -9,7 +10,11 @@ import Cirbo.Proofs.BenchDoc
 -- OBLIGATION: c11_gate_line_roundtrip
 -- OBLIGATION: c11_declaration_lines
 -- OBLIGATION: c11_document_roundtrip
--- PARTIAL: the round trip is proved for whole documents (c11_document_roundtrip). The layout-independence theorem for arbitrary hand-written text (random spaces / letter case / line order / comments / blank lines) is not proved; it is exercised by exact correspondence of the parser model with the code on such texts and by the layout search on every run. Errors for malformed text are decided by correspondence.
+-- OBLIGATION: c11_gate_line_any_layout
+-- OBLIGATION: c11_other_lines_any_layout
+-- OBLIGATION: c11_document_any_declaration_order
+-- OBLIGATION: c11_declaration_order_is_irrelevant
+-- PARTIAL: every clause is proved on the parser model: the round trip for whole documents (c11_document_roundtrip); every accepted line form in any layout — spaces before/after the name, around '=', before '(', around every operand, operator keywords in any letter case, BUFF, vdd, INPUT/OUTPUT in any case with padded names, comments, blank lines, anything after ')' (c11_gate_line_any_layout, c11_other_lines_any_layout); and documents of such lines in any declaration order incl. use before definition (c11_document_any_declaration_order, c11_declaration_order_is_irrelevant). What 'the text denotes' is its list of statements (Stmt); that the result then computes the statements' function is C01's denotation of the gate list. Errors for malformed text (which exception class) are decided by correspondence only; the model's tie to the Python parser is the correspondence run.
 -/
 namespace Cirbo
 open GateType
@@ -73,11 +78,83 @@ theorem c11_document_roundtrip {c : Circuit} (hw : WF c) (hp : Printable c) :
       c'.gates.Perm c.gates :=
   bench_roundtrip hw hp
 
+/-- **a gate line in any layout parses to exactly that gate**: any number of spaces before and after
+the output name, around `=`, between the operator and `(`, around every operand (`ArgsLayout`); the
+operator in any letter case (anything `gateTypeOfKeyword` accepts after upper-casing, e.g. `nand`,
+`Buff`); anything at all after the closing parenthesis — as a statement usable in any document
+(`LineSem`: with or without its line terminator, no newline inside) -/
+theorem c11_gate_line_any_layout (g : Gate) (hty : g.ty ≠ INPUT)
+    (hl : IsIdent g.label.toList) (hops : ∀ o ∈ g.ops, IsIdent o.toList)
+    (har : parserArityOk g.ty g.ops.length = true)
+    {sp0 sp1 sp2 sp3 kw A T : Str} (h0 : Sp sp0) (h1 : Sp sp1) (h2 : Sp sp2) (h3 : Sp sp3)
+    (hkw : gateTypeOfKeyword (upperS kw) = some g.ty) (hA : ArgsLayout g.ops A) (hT : '\n' ∉ T) :
+    LineSem (gateLine sp0 g.label.toList sp1 sp2 kw sp3 A T) (Stmt.gate g).apply :=
+  gate_layout_sem g hty hl hops har h0 h1 h2 h3 hkw hA hT
+
+/-- the other line forms: `INPUT(name)` / `OUTPUT(name)` with the keyword in any letter case and the
+name padded by spaces and parentheses; `name = vdd` (any case, any spaces, anything after it) is the
+constant-true gate; comment lines and blank lines say nothing -/
+theorem c11_other_lines_any_layout (l : Label) (hl : IsIdent l.toList) :
+    (∀ {kw p1 p2 : Str}, upperS kw = strOf "INPUT(" → DeclPad p1 → DeclPad p2 → '\n' ∉ p1 → '\n' ∉ p2 →
+      LineSem (kw ++ p1 ++ l.toList ++ p2) (Stmt.gate ⟨l, .INPUT, []⟩).apply) ∧
+    (∀ {kw p1 p2 : Str}, upperS kw = strOf "OUTPUT(" → DeclPad p1 → DeclPad p2 → '\n' ∉ p1 → '\n' ∉ p2 →
+      LineSem (kw ++ p1 ++ l.toList ++ p2) (Stmt.output l).apply) ∧
+    (∀ {sp0 sp1 sp2 v T : Str}, Sp sp0 → Sp sp1 → Sp sp2 → upperS v = strOf "VDD" → '\n' ∉ T →
+      LineSem (sp0 ++ l.toList ++ sp1 ++ '=' :: (sp2 ++ v ++ T)) (Stmt.gate ⟨l, .ALWAYS_TRUE, []⟩).apply) ∧
+    (∀ {rest : Str}, '\n' ∉ rest → LineSem ('#' :: rest) Stmt.skip.apply) ∧
+    LineSem [] Stmt.skip.apply :=
+  ⟨fun hk h1 h2 n1 n2 => input_layout_sem l hl hk h1 h2 n1 n2,
+   fun hk h1 h2 n1 n2 => output_layout_sem l hl hk h1 h2 n1 n2,
+   fun h0 h1 h2 hv hT => vdd_layout_sem l hl h0 h1 h2 hv hT,
+   fun h => comment_sem h, blank_line_sem⟩
+
+/-- **any declaration order**: a document whose lines (each in any accepted layout) say the statements
+`ss`, with pairwise distinct gate names, parses to the circuit that has exactly the gates of `ss`
+(line order), the inputs in `INPUT`-line order and the outputs in `OUTPUT`-line order — as long as
+every operand is defined somewhere in the document, before or after its use; otherwise
+`CircuitValidationError` -/
+theorem c11_document_any_declaration_order (ls : StmtLines) (h : ∀ p ∈ ls, LineSem p.1 p.2.apply)
+    (hnd : ((stmtGates (ls.map (·.2))).map (·.label)).Nodup) :
+    let gs := stmtGates (ls.map (·.2))
+    if gs.all (fun g => g.ops.all (fun o => gs.any (fun x => x.label == o))) then
+      ∃ c, parseBench (docText ls) = .ok c ∧ c.gates = gs ∧
+        c.inputs = (gs.filter (fun g => g.ty = .INPUT)).map (·.label) ∧ c.outputs = stmtOuts (ls.map (·.2))
+    else parseBench (docText ls) = .error "CircuitValidationError" :=
+  parse_document ls h hnd
+
+/-- two documents that say the same gate definitions (as a multiset) and list the `INPUT` lines and
+the `OUTPUT` lines in the same relative order parse to circuits with the same input list, the same
+output list, the same gate definitions — hence exactly the same valuations (the same function) -/
+theorem c11_declaration_order_is_irrelevant (l1 l2 : StmtLines) (h1 : ∀ p ∈ l1, LineSem p.1 p.2.apply)
+    (h2 : ∀ p ∈ l2, LineSem p.1 p.2.apply)
+    (hnd : ((stmtGates (l1.map (·.2))).map (·.label)).Nodup)
+    (hperm : (stmtGates (l1.map (·.2))).Perm (stmtGates (l2.map (·.2))))
+    (hin : (stmtGates (l1.map (·.2))).filter (fun g => g.ty = .INPUT) = (stmtGates (l2.map (·.2))).filter (fun g => g.ty = .INPUT))
+    (hout : stmtOuts (l1.map (·.2)) = stmtOuts (l2.map (·.2)))
+    {c1 : Circuit} (hp1 : parseBench (docText l1) = .ok c1) :
+    ∃ c2, parseBench (docText l2) = .ok c2 ∧ c2.inputs = c1.inputs ∧ c2.outputs = c1.outputs ∧
+      c2.gates.Perm c1.gates ∧ ∀ b v, IsValB c1 b v ↔ IsValB c2 b v :=
+  parse_order_independent l1 l2 h1 h2 hnd hperm hin hout hp1
+
+/-! Non-vacuity: a hand-written document — use before definition, odd spacing, mixed case, BUFF, vdd,
+a comment, a blank line, junk after a parenthesis -/
+example : (parseBench ("# c\n\noutput( y )\n y =nAnd ( a ,t )  junk\nInPuT(a)\nt = vdd\nz= Buff(y)\n".toList)).toOption.map
+    (fun c => (c.gates.map (fun g => (g.label, g.ty, g.ops)), c.inputs, c.outputs)) =
+    some ([("y", .NAND, ["a", "t"]), ("a", .INPUT, []), ("t", .ALWAYS_TRUE, []), ("z", .IFF, ["y"])], ["a"], ["y"]) := by
+  decide
+/-- and that very gate line is an instance of the layout theorem -/
+example : gateLine [' '] "y".toList [' '] [] "nAnd".toList [' '] (joinWith [','] (List.zipWith padOp ["a", "t"] [([' '], [' ']), ([], [' '])])) "  junk".toList
+    = " y =nAnd ( a ,t )  junk".toList := by decide
+
 #print axioms c11_keywords_roundtrip
 #print axioms c11_gate_line_never_a_declaration
 #print axioms c11_operand_list_roundtrip
 #print axioms c11_gate_line_roundtrip
 #print axioms c11_declaration_lines
 #print axioms c11_document_roundtrip
+#print axioms c11_gate_line_any_layout
+#print axioms c11_other_lines_any_layout
+#print axioms c11_document_any_declaration_order
+#print axioms c11_declaration_order_is_irrelevant
 
 end Cirbo
